@@ -11,7 +11,8 @@ THEOREMS = ["Econf.C04_read_total", "Econf.C04_line_total", "Econf.C04_split_los
 SHRINK = False
 RULE = ("three input streams under ASan+UBSan with a per-scenario timeout: (1) all byte strings up to the tier's length over "
         "{a = space # [ ] \" newline} and random strings over a wider alphabet incl. NUL, tab, 0x80, ';'; (2) conventional documents "
-        "with byte-level mutations; (3) long lines around BUFSIZ and 64 KiB; x 7 delimiter sets x 3 comment sets x {default, JOIN, PYTHON, "
+        "with byte-level mutations; (3) long lines around BUFSIZ and 64 KiB; (4) files with 0..34, 63..65, 127..129, 255..257 sections or keys per section, "
+        "alone and as the inputs of a merge with that many sections in the result; x 7 delimiter sets x 3 comment sets x {default, JOIN, PYTHON, "
         "both}; after a successful read: every listing, every typed and extended getter on every key, merge with a second file in both "
         "roles, write and re-read; non-trivial = the read succeeded with at least one entry; distinct by (content, sets, options)")
 DOCUMENTED = {0, 3, 9, 10, 11, 12}   # success, file not found (re-read after a refused write), the four parse errors
@@ -86,6 +87,15 @@ def long_line(rng, n):
     return body(n, rng.choice([0x20, 0x3d, 0x23, 0x5b, 0x22]))   # only structural characters
 
 
+def many(rng, nsec, nkeys, groupless, prefix=b"s"):
+    """a file with `nsec` sections of `nkeys` keys each (growth of the entry and section arrays: counts around powers of two)"""
+    lines = [b"g%d=%d" % (i, i) for i in range(groupless)]
+    for i in range(nsec):
+        lines.append(b"[" + prefix + b"%d]" % i)
+        lines += [b"k%d=v%d" % (j, j) for j in range(nkeys)]
+    return b"\n".join(lines) + b"\n"
+
+
 def scenarios(tier, rng):
     out = []
     n = 0
@@ -110,6 +120,18 @@ def scenarios(tier, rng):
         a = mutate(rng, gen_doc.render(g.document(12)))
         b = mutate(rng, gen_doc.render(g.document(8)))
         out.append(scenario("m%d" % i, a, b, d, c, o, "mutated"))
+    # (4) many sections / many keys: every count from 0 to 34 and some larger ones, alone and as the two inputs of a merge
+    #     whose result has such a count
+    counts = list(range(0, 35)) + [63, 64, 65, 127, 128, 129, 255, 256, 257]
+    for i, c in enumerate(counts if tier == "quick" else counts * 3):
+        d, cm = b"=", rng.choice([b"#", b";"])
+        o = rng.choice(gen_parse.OPTIONS)
+        gl = rng.choice([0, 0, 1, 2])
+        k = rng.choice([0, 1, 1, 2])
+        left = rng.randint(0, c)
+        out.append(scenario("n%da" % i, many(rng, c, k, gl), many(rng, rng.choice([0, 1, c]), 1, rng.choice([0, 1]), b"t"), d, cm, o, "many"))
+        out.append(scenario("n%db" % i, many(rng, left, 1, gl), many(rng, c - left, 1, 0, b"t"), d, cm, o, "many"))
+        out.append(scenario("n%dc" % i, many(rng, 1, c, gl), many(rng, 1, rng.choice([1, c]), 1), d, cm, o, "many"))
     # (3) long lines
     for i, nlen in enumerate([8189, 8190, 8191, 8192, 8193, 8194, 16384, 65536] * (1 if tier == "quick" else 4)):
         d, c, o = rng.choice(cfgs)
